@@ -117,12 +117,32 @@ def c07(prop, tier, seed, core):
     m["violations"].extend(extra_viol)
     # hostile scenarios, one process each
     add_hostile(m, core, prop, work, tier, HOSTILE, known_sigs)
+    if tier == "thorough":
+        add_sanitizers(m, core, prop, work, seed)
     m["rule"] = (core.RULES["progsim"] + " C07 adds: programs from a hostile profile (40% no-op parents, empty parent sets, 25% unsampled roots, property "
                  "closures that themselves run API operations, all adapter kinds, thread exits) where any panic or a logical thread that does not "
                  "come back is the violation; plus one-process-per-scenario runs: every public call before set_reporter, 4200 nested scopes, 10400 "
                  "local spans in one scope, 25000 commands into a ring nobody drains (per-call latency recorded), and the full call list issued "
                  "from thread-local destructors in every registration order of the user's, fastrace's and rand's thread-locals.")
     return m
+
+
+def add_sanitizers(m, core, prop, work, seed):
+    """ASan builds of stress / progsim / hostile and Miri runs of the tiny program (thorough tier)"""
+    import sanitizers
+    jobs = [("stress-default", "stress", ["--config", "default", "--seed", str(seed), "--jobs", "4000", "--interval-us", "0", "--fillers", "2", "--time-limit", "60"], True),
+            ("stress-cancelable", "stress", ["--config", "cancelable", "--seed", str(seed + 1), "--jobs", "3000", "--interval-us", "0", "--fillers", "1", "--time-limit", "60"], True),
+            ("progsim-%s-stepped" % prop, "progsim", ["--prop", prop, "--mode", "stepped", "--config", "default", "--seed", str(seed + 2), "--programs", "1500", "--time-limit", "90", "--replay-dir", core.REPLAYS], True),
+            ("progsim-%s-placed-cancelable" % prop, "progsim", ["--prop", prop, "--mode", "placed", "--config", "cancelable", "--seed", str(seed + 3), "--programs", "1500", "--time-limit", "90", "--replay-dir", core.REPLAYS], True)]
+    for sc in ("tls-A-0", "tls-B-0", "tls-C-0", "tls-R-0", "tls-A-3", "deep-scopes", "wide-scope", "full-ring", "pre-reporter"):
+        jobs.append(("hostile-" + sc, "hostile", ["--scenario", sc], True))
+    a, av, ai = sanitizers.asan(core, work, seed, jobs)
+    mi, mv, mii = sanitizers.miri(core, work)
+    m["cov"]["asan"] = a
+    m["cov"]["miri"] = mi
+    m["violations"].extend(av + mv)
+    m["inconclusive"].extend(ai + mii)
+    m["evaluations"] += len(a["runs"]) + sum(r.get("completed_schedules", 0) for r in mi["runs"])
 
 
 def add_hostile(m, core, prop, work, tier, names, known_sigs):
@@ -167,6 +187,17 @@ def add_hostile(m, core, prop, work, tier, names, known_sigs):
 
 
 HANDLERS["C07"] = c07
+
+
+def c01(prop, tier, seed, core):
+    m = core.check_progsim_family(prop, tier, seed)
+    if tier == "thorough":
+        add_sanitizers(m, core, prop, os.path.join(core.WORK, prop), seed)
+        m["rule"] = core.RULES["progsim"] + " Thorough adds AddressSanitizer builds of stress / progsim and Miri runs (16 schedules x 4 programs) of a tiny multi-threaded span program."
+    return m
+
+
+HANDLERS["C01"] = c01
 
 
 def c09(prop, tier, seed, core):
